@@ -744,6 +744,55 @@ func checkC20(w *World, r *Report) {
 		}
 	}
 	walkSchema(s.root, "#")
+	// C20.7: several environment variables contribute to one key; after the distinguishing suffix is
+	// stripped, colliding entries have to be merged with what is already there
+	ri7 := r.Rule("C20.7", 2, "in the configuration parser, an entry stored under a key from which a distinguishing part was stripped is merged with the entry already present under that key, not assigned over it (else all but one of the variables describing a list are lost)")
+	for _, fn := range w.Funcs {
+		if !strings.HasSuffix(fnPkgPath(fn), "/internal/config/parser") || w.isMockFn(fn) {
+			continue
+		}
+		n := 0
+		eachInstr(fn, func(in ssa.Instruction) {
+			mu, ok := in.(*ssa.MapUpdate)
+			if !ok {
+				return
+			}
+			stripped := dependsOn(w, mu.Key, func(x ssa.Value) bool {
+				c, isC := x.(*ssa.Call)
+				if !isC {
+					return false
+				}
+				switch callName(c.Common()) {
+				case "strings.Split", "strings.SplitN", "strings.Cut", "strings.TrimSuffix", "strings.TrimRight", "strings.TrimPrefix":
+					return true
+				}
+				return false
+			})
+			if !stripped {
+				return
+			}
+			if _, fresh := mu.Map.(*ssa.MakeMap); fresh {
+				// a map created here and filled outside any loop (a literal) cannot hold a colliding entry
+				inLoop := false
+				for _, sb := range mu.Block().Succs {
+					if reach(sb, nil)[mu.Block()] {
+						inLoop = true
+					}
+				}
+				if !inLoop {
+					return
+				}
+			}
+			n++
+			merges := dependsOn(w, mu.Value, func(x ssa.Value) bool {
+				lk, isL := x.(*ssa.Lookup)
+				return isL && sameValue(lk.X, mu.Map) && (sameValue(lk.Index, mu.Key) || sameExpr(lk.Index, mu.Key))
+			})
+			r.Analysed(w.FnName(fn))
+			r.Ob(ri7, fmt.Sprintf("%s|stripped-key-store#%d", w.FnName(fn), n), mu.Pos(), merges,
+				"entries whose keys differ only in the stripped part overwrite each other here: of the environment variables describing one list only one survives, and which one depends on map iteration order")
+		})
+	}
 	// cache back ends: cache.Register("<type>", factory) plus the built-in noop type
 	var cacheAlts []sdef
 	if cn, ok := props(s.root)["cache"].(map[string]any); ok {
